@@ -1,6 +1,6 @@
 ---------------------------- MODULE NeuronJSON_mc ----------------------------
 (* Configurations of NeuronJSON: seeds and update sets for the exhaustive     *)
-(* decision table (one annotation), the exhaustive coherence check, and the   *)
+(* decision table (one annotation), the exhaustive coherence check, the       *)
 (* simulated histories.                                                       *)
 EXTENDS NeuronJSON, Randomization
 
@@ -17,4 +17,18 @@ PickAll(S) == S
 PickOne(S) == IF S = {} THEN {} ELSE RandomSubset(1, S)
 AllUpdsAt(k)  == AllUpds
 RandUpdsAt(k) == RandomSubset(NRand, AllUpds)
+
+\* defaults for configurations without the respective dimension
+NoBranches   == {}
+OneBranch    == {1}
+TrkChoices   == {{}, {1}}        \* a (re)start tracks branch 1 or not
+OnlyUntracked == {{}}
+OnlyNoSt     == {NoSt}
+AllSt        == [Fields -> 0..3]
+NoConstrain  == [d \in 0..NumDocs |-> 0]
+NoConv       == [v \in {} |-> 0]
+NoAtoms      == [v \in 1..NumVals |-> {}]
+NoQueries    == <<>>
+NoProjs      == <<>>
+
 =============================================================================
